@@ -518,8 +518,10 @@ def api_noise(p, rng, history, max_module=0xFFFF):
                     if names:
                         pairs.append((m, rng.choice(names)))
                 if pairs:
-                    MultiCtl.macro(p, *pairs, name="macro", x=rng.randint(-500, 500), y=rng.randint(-500, 500) | 1,
-                                   initial=rng.choice([None, 0, 32768, rng.randint(0, 32768)]))
+                    mkw = dict(x=rng.randint(-500, 500), y=rng.randint(-500, 500) | 1, initial=rng.choice([None, 0, 32768, rng.randint(0, 32768)]))
+                    if rng.random() < 0.5:
+                        mkw["name"] = "macro"           # every keyword of the helper is optional
+                    MultiCtl.macro(p, *pairs, **mkw)
             elif kind in ("bulk-fn", "bulk-gen"):
                 pats = [q for q in p.patterns if isinstance(q, api.Pattern)]
                 if pats:
